@@ -1,1 +1,395 @@
-// harness stub: nothing here yet
+// Correspondence harness for daemon/src/convert.rs (property C17).
+// Included as the body of `convert::verif_hx` under cfg(all(test, osrg_rustybgp_verif)).
+//
+// Case kinds (first element):
+//   0  [0, flags, code, value]         one path attribute as it arrives on the wire: decoded by
+//                                      PeerCodec::parse_message, then attr_to_api / attr_from_api
+//   1  [1, api_attr]                   an API attribute message: attr_from_api, then the consumers
+//   2  [2, family, api_nlri]           an API NLRI message: net_from_api, then nlri_to_api/encode
+//   3  [3, family, nlri wire bytes]    NLRIs decoded from an MP_REACH / classic UPDATE, round trip
+//   4  [4, addpath, update body]       wide differential part: a whole UPDATE (any family, any
+//                                      attribute kind), every decoded attribute and NLRI round-tripped
+use super::*;
+
+#[allow(dead_code)]
+mod val {
+    include!(concat!(env!("VERIF_HX_DIR"), "/common/val.rs"));
+}
+use val::Val;
+
+#[allow(dead_code)]
+mod c17_api {
+    include!(concat!(env!("VERIF_HX_DIR"), "/common/c17_api.rs"));
+}
+use c17_api::*;
+
+use rustybgp_packet::bgp::{self, PeerCodec};
+use std::panic::{AssertUnwindSafe, catch_unwind};
+use std::sync::Arc;
+
+fn update_with_attrs(attr_bytes: &[u8], nlri: &[u8]) -> Vec<u8> {
+    let total = 16 + 2 + 1 + 2 + 2 + attr_bytes.len() + nlri.len();
+    let mut msg = Vec::with_capacity(total);
+    msg.extend_from_slice(&[0xff; 16]);
+    msg.extend_from_slice(&(total as u16).to_be_bytes());
+    msg.push(2);
+    msg.extend_from_slice(&[0, 0]);
+    msg.extend_from_slice(&(attr_bytes.len() as u16).to_be_bytes());
+    msg.extend_from_slice(attr_bytes);
+    msg.extend_from_slice(nlri);
+    msg
+}
+
+fn wire_attr(flags: u8, code: u8, data: &[u8]) -> Vec<u8> {
+    let mut b = vec![flags, code];
+    if flags & 0x10 != 0 {
+        b.extend_from_slice(&(data.len() as u16).to_be_bytes());
+    } else {
+        b.push(data.len() as u8);
+    }
+    b.extend_from_slice(data);
+    b
+}
+
+fn from_api_val(r: Result<Attribute, Error>) -> Val {
+    match r {
+        Ok(a) => Val::L(vec![i(1), attr_val(&a)]),
+        Err(_) => Val::L(vec![i(0)]),
+    }
+}
+
+fn caught<F: FnOnce() -> Val>(f: F) -> Val {
+    match catch_unwind(AssertUnwindSafe(f)) {
+        Ok(v) => v,
+        Err(_) => Val::L(vec![i(-1)]),
+    }
+}
+
+// kind 0
+fn run_wire(l: &[Val]) -> Val {
+    let flags = l[1].u8();
+    let code = l[2].u8();
+    let data = l[3].bytes();
+    let msg = update_with_attrs(&wire_attr(flags, code, &data), &[]);
+    let mut codec = PeerCodec::new();
+    codec.extended_length = true;
+    let attrs = match codec.parse_message(&msg) {
+        Ok(bgp::ParsedMessage::Update(bgp::ParsedUpdate::Routes {
+            attrs, error_attrs, ..
+        })) => {
+            if error_attrs.is_empty() { attrs } else { Vec::new() }
+        }
+        _ => Vec::new(),
+    };
+    let Some(a) = attrs.first() else {
+        return Val::L(vec![i(0)]);
+    };
+    let apiv = caught(|| api_val(&attr_to_api(a)));
+    let rt = caught(|| from_api_val(attr_from_api(attr_to_api(a))));
+    Val::L(vec![i(1), attr_val(a), apiv, rt])
+}
+
+// GrpcService::local_path's assembly of the attribute list (event/grpc.rs): MP_REACH and
+// NEXT_HOP go to the nexthop field, ORIGINATOR_ID / CLUSTER_LIST / MP_UNREACH are dropped,
+// ORIGIN igp and an empty AS_PATH are supplied when absent.
+fn local_path_attrs(a: &Attribute) -> Vec<Attribute> {
+    let mut attr = Vec::new();
+    match a.code() {
+        Attribute::MP_REACH
+        | Attribute::NEXTHOP
+        | Attribute::ORIGINATOR_ID
+        | Attribute::CLUSTER_LIST
+        | Attribute::MP_UNREACH => {}
+        _ => attr.push(a.clone()),
+    }
+    if !attr.iter().any(|a| a.code() == Attribute::ORIGIN) {
+        attr.push(Attribute::new_with_value(Attribute::ORIGIN, 0).unwrap());
+    }
+    if !attr.iter().any(|a| a.code() == Attribute::AS_PATH) {
+        attr.push(Attribute::empty_as_path());
+    }
+    attr
+}
+
+fn insert_next_to_competitor(a: &Attribute) -> Val {
+    use rustybgp_table::{InsertResult, PeerRole, Source, Table};
+    use std::net::IpAddr;
+    let mut t = Table::new(0);
+    let mk = |k: u8| {
+        Arc::new(Source::new(
+            IpAddr::V4(Ipv4Addr::new(192, 0, 2, k)),
+            IpAddr::V4(Ipv4Addr::new(192, 0, 2, 254)),
+            65000 + k as u32,
+            65000,
+            Ipv4Addr::from(k as u32),
+            PeerRole::Ebgp,
+        ))
+    };
+    let net = Nlri::V4(Ipv4Net { addr: Ipv4Addr::new(10, 0, 0, 0), mask: 8 });
+    let nh = Some(bgp::Nexthop::V4(Ipv4Addr::new(192, 0, 2, 1)));
+    let comp = vec![
+        Attribute::new_with_value(Attribute::ORIGIN, 0).unwrap(),
+        Attribute::empty_as_path(),
+    ];
+    let _ = t.insert(mk(1), Family::IPV4, net.clone(), 0, nh, Arc::new(comp), None, false, false, None, 0);
+    let newsrc = mk(2);
+    let r = t.insert(
+        newsrc.clone(),
+        Family::IPV4,
+        net,
+        0,
+        nh,
+        Arc::new(local_path_attrs(a)),
+        None,
+        false,
+        false,
+        None,
+        0,
+    );
+    match r {
+        InsertResult::Changed(ch) => {
+            let first_is_new = ch
+                .current_paths
+                .first()
+                .map(|p| Arc::ptr_eq(&p.source, &newsrc))
+                .unwrap_or(false);
+            Val::b(first_is_new)
+        }
+        _ => i(-3),
+    }
+}
+
+fn downstream(a: &Attribute) -> Val {
+    let aspl = if a.code() == Attribute::AS_PATH {
+        caught(|| Val::us(a.as_path_length()))
+    } else {
+        Val::L(vec![i(-2)])
+    };
+    let enc = caught(|| Val::us(a.encode_to_bytes().len()));
+    let list = caught(|| {
+        let _ = attr_to_api(a);
+        i(0)
+    });
+    let ins = caught(|| insert_next_to_competitor(a));
+    Val::L(vec![aspl, enc, list, ins])
+}
+
+// kind 1
+fn run_api(l: &[Val]) -> Val {
+    let x = api_of(&l[1]);
+    match attr_from_api(x) {
+        Err(_) => Val::L(vec![i(0)]),
+        Ok(a) => Val::L(vec![i(1), attr_val(&a), downstream(&a)]),
+    }
+}
+
+// ---------------------------------------------------------------- NLRI
+fn net_from_api_val(r: Result<Nlri, Error>) -> Val {
+    match r {
+        Ok(n) => Val::L(vec![i(1), nlri_val(&n)]),
+        Err(_) => Val::L(vec![i(0)]),
+    }
+}
+
+// kind 2: an API NLRI message
+fn run_api_nlri(l: &[Val]) -> Val {
+    match net_from_api(api_nlri_of(&l[1]), Family::IPV4) {
+        Err(_) => Val::L(vec![i(0)]),
+        Ok(n) => {
+            let enc = caught(|| Val::from_bytes(&n.encode_to_bytes()));
+            Val::L(vec![i(1), nlri_val(&n), enc])
+        }
+    }
+}
+
+// kind 3: an internal NLRI value
+fn run_nlri(l: &[Val]) -> Val {
+    let n = nlri_of(&l[1]);
+    let x = nlri_to_api(&n);
+    let back = net_from_api(x.clone(), Family::IPV4);
+    Val::L(vec![api_nlri_val(&x), net_from_api_val(back)])
+}
+
+// ---------------------------------------------------------------- kind 4: the wide differential part
+const ALL_FAMILIES: [Family; 19] = [
+    Family::IPV4,
+    Family::IPV6,
+    Family::IPV4_MC,
+    Family::IPV6_MC,
+    Family::IPV4_MPLS,
+    Family::IPV6_MPLS,
+    Family::LS,
+    Family::IPV4_MUP,
+    Family::IPV6_MUP,
+    Family::IPV4_VPN,
+    Family::IPV6_VPN,
+    Family::IPV4_FLOWSPEC,
+    Family::IPV6_FLOWSPEC,
+    Family::IPV4_FLOWSPEC_VPN,
+    Family::IPV6_FLOWSPEC_VPN,
+    Family::IPV4_SRPOLICY,
+    Family::IPV6_SRPOLICY,
+    Family::L2VPN_EVPN,
+    Family::RTC,
+];
+
+fn fam_u32(f: Family) -> u32 {
+    ((f.afi() as u32) << 16) | f.safi() as u32
+}
+
+// round-trip status of one held attribute: 0 equal, 1 differs, 2 rejected, 3 only the flags
+// differ, -1 attr_to_api panicked, -2 attr_from_api panicked
+fn attr_rt_status(a: &Attribute) -> (i128, Option<Attribute>) {
+    let x = match catch_unwind(AssertUnwindSafe(|| attr_to_api(a))) {
+        Ok(x) => x,
+        Err(_) => return (-1, None),
+    };
+    match catch_unwind(AssertUnwindSafe(|| attr_from_api(x))) {
+        Err(_) => (-2, None),
+        Ok(Err(_)) => (2, None),
+        Ok(Ok(b)) => {
+            if &b == a {
+                (0, None)
+            } else if b.code() == a.code()
+                && b.value() == a.value()
+                && b.binary() == a.binary()
+                && b.is_opaque() == a.is_opaque()
+            {
+                (3, None)
+            } else {
+                (1, Some(b))
+            }
+        }
+    }
+}
+
+fn nlri_rt_status(n: &Nlri, family: Family) -> (i128, Option<Nlri>) {
+    let x = match catch_unwind(AssertUnwindSafe(|| nlri_to_api(n))) {
+        Ok(x) => x,
+        Err(_) => return (-1, None),
+    };
+    match catch_unwind(AssertUnwindSafe(|| net_from_api(x, family))) {
+        Err(_) => (-2, None),
+        Ok(Err(_)) => (2, None),
+        Ok(Ok(b)) => {
+            if &b == n { (0, None) } else { (1, Some(b)) }
+        }
+    }
+}
+
+// [4, opts, message bytes]: opts bit0 = two-octet-AS session, bit1 = ADD-PATH receive
+fn run_wide(l: &[Val]) -> Val {
+    let opts = l[1].u8();
+    let msg = l[2].bytes();
+    let mut codec = PeerCodec::new();
+    codec.extended_length = true;
+    codec.two_byte_as = opts & 1 != 0;
+    for f in ALL_FAMILIES {
+        codec.set_family(f, bgp::FamilyState { addpath_rx: opts & 2 != 0, addpath_tx: false });
+    }
+    let (attrs, nets) = match codec.parse_message(&msg) {
+        Ok(bgp::ParsedMessage::Update(bgp::ParsedUpdate::Routes {
+            reach,
+            mp_reach,
+            unreach,
+            mp_unreach,
+            attrs,
+            ..
+        })) => {
+            let mut nets: Vec<(Family, Nlri)> = Vec::new();
+            for r in [reach, mp_reach].into_iter().flatten() {
+                for e in r.entries {
+                    nets.push((r.family, e.nlri));
+                }
+            }
+            for r in [unreach, mp_unreach].into_iter().flatten() {
+                for e in r.entries {
+                    nets.push((r.family, e.nlri));
+                }
+            }
+            (attrs, nets)
+        }
+        _ => return Val::L(vec![i(0)]),
+    };
+    let av = attrs
+        .iter()
+        .map(|a| {
+            let (st, back) = attr_rt_status(a);
+            let mut v = vec![
+                Val::n(a.code()),
+                Val::n(a.flags()),
+                i(if a.value().is_some() { 0 } else if a.is_opaque() { 2 } else { 1 }),
+                i(st),
+            ];
+            if st != 0 {
+                v.push(attr_val(a));
+            }
+            if let Some(b) = back {
+                v.push(attr_val(&b));
+            }
+            Val::L(v)
+        })
+        .collect();
+    let nv = nets
+        .iter()
+        .map(|(f, n)| {
+            let (st, back) = nlri_rt_status(n, *f);
+            let mut v = vec![Val::n(fam_u32(*f)), i(st)];
+            if st != 0 {
+                v.push(s_val(&format!("{}", n)));
+                v.push(Val::from_bytes(&n.encode_to_bytes()));
+            }
+            if let Some(b) = back {
+                v.push(Val::from_bytes(&b.encode_to_bytes()));
+            }
+            Val::L(v)
+        })
+        .collect();
+    Val::L(vec![i(1), Val::L(av), Val::L(nv)])
+}
+
+// kind 6: an API EVPN message; the last element tells whether the accepted route decodes
+// back from its own wire encoding to the same value
+fn run_api_evpn(l: &[Val]) -> Val {
+    match net_from_api(api_evpn_of(&l[1]), Family::L2VPN_EVPN) {
+        Ok(Nlri::Evpn(e)) => {
+            let bytes = Nlri::Evpn(e.clone()).encode_to_bytes();
+            let back = packet::evpn::EvpnNlri::decode(&mut Cursor::new(&bytes));
+            let same = matches!(back, Ok(ref b) if b == &e);
+            Val::L(vec![i(1), evpn_val(&e), Val::b(same)])
+        }
+        Ok(_) => Val::L(vec![i(-4)]),
+        Err(_) => Val::L(vec![i(0)]),
+    }
+}
+
+// kind 7: an internal EVPN route
+fn run_evpn(l: &[Val]) -> Val {
+    let n = Nlri::Evpn(evpn_of(&l[1]));
+    let x = nlri_to_api(&n);
+    let back = match net_from_api(x.clone(), Family::L2VPN_EVPN) {
+        Ok(Nlri::Evpn(e)) => Val::L(vec![i(1), evpn_val(&e)]),
+        Ok(_) => Val::L(vec![i(-4)]),
+        Err(_) => Val::L(vec![i(0)]),
+    };
+    Val::L(vec![api_evpn_val(&x), back])
+}
+
+fn run_case(case: &Val) -> Val {
+    let l = case.list();
+    match l[0].int() {
+        6 => run_api_evpn(l),
+        7 => run_evpn(l),
+        4 => run_wide(l),
+        0 => run_wire(l),
+        1 => run_api(l),
+        2 => run_api_nlri(l),
+        3 => run_nlri(l),
+        k => panic!("verif: unknown case kind {}", k),
+    }
+}
+
+#[test]
+fn verif_convert_cases() {
+    val::run_cases(run_case);
+}
